@@ -260,6 +260,7 @@ impl Check for C06 {
             bound: Some(it.bound),
             max_execs: 500_000,
             wall: Duration::from_secs(if tier == Tier::Thorough { 300 } else { 30 }),
+            spurious_upto: None,
         };
         let class = class_of(&sc);
         let found = explore_runner_scenario(&cfg, acc, &sc, &class, &failing_reader_clause);
